@@ -40,6 +40,10 @@ func (c call) String() string {
 		return fmt.Sprintf("%s(%s=%s,tx%d)", c.Kind, c.K, c.V, c.Tx)
 	case "get", "delete", "history", "scan":
 		return fmt.Sprintf("%s(%s)", c.Kind, c.K)
+	case "getAtTx", "getSince":
+		return fmt.Sprintf("%s(%s,tx%d)", c.Kind, c.K, c.Tx)
+	case "getAtRev":
+		return fmt.Sprintf("getAtRev(%s,-%d)", c.K, c.Tx)
 	case "getAll":
 		return fmt.Sprintf("getAll(%s,%s)", c.K, c.K2)
 	}
@@ -156,6 +160,43 @@ func step(s mstate, c call, out string) (bool, mstate) {
 			return out == "nf", s
 		}
 		return out == renderEntry(c.K, v, rev), s
+	case "getSince":
+		if c.Tx > s.ntx {
+			return out == "err:illegal", s
+		}
+		v, rev, ok := s.live(c.K)
+		if !ok {
+			return out == "nf", s
+		}
+		return out == renderEntry(c.K, v, rev), s
+	case "getAtTx":
+		// the entry of the key written by exactly that transaction (no revision is reported)
+		if c.Tx > s.ntx {
+			return out == "err:txnotfound", s
+		}
+		for _, v := range s.kv[c.K] {
+			if v.tx == c.Tx {
+				if v.del {
+					return out == "nf", s
+				}
+				return out == renderEntry(c.K, v, 0), s
+			}
+		}
+		return out == "nf", s
+	case "getAtRev":
+		// c.Tx revisions back from the latest one
+		vs := s.kv[c.K]
+		if len(vs) == 0 {
+			return out == "nf" || out == "err:invalidrevision", s
+		}
+		if int(c.Tx) >= len(vs) {
+			return out == "err:invalidrevision", s
+		}
+		v := vs[len(vs)-1-int(c.Tx)]
+		if v.del {
+			return out == "nf", s
+		}
+		return out == renderEntry(c.K, v, len(vs)-int(c.Tx)), s
 	case "getAll":
 		var parts []string
 		for _, k := range []string{c.K, c.K2} {
@@ -221,6 +262,12 @@ func errClass(err error) string {
 		return "err:conflict"
 	case errors.Is(err, store.ErrKeyNotFound):
 		return "err:notfound"
+	case errors.Is(err, store.ErrTxNotFound):
+		return "err:txnotfound"
+	case errors.Is(err, database.ErrInvalidRevision):
+		return "err:invalidrevision"
+	case errors.Is(err, store.ErrIllegalArguments):
+		return "err:illegal"
 	}
 	return "err:" + err.Error()
 }
@@ -252,6 +299,24 @@ func doCall(db database.DB, c call) string {
 		return hdr(db.Delete(ctx, &schema.DeleteKeysRequest{Keys: [][]byte{[]byte(c.K)}}))
 	case "get":
 		e, err := db.Get(ctx, &schema.KeyRequest{Key: []byte(c.K)})
+		if err != nil {
+			if errors.Is(err, store.ErrKeyNotFound) {
+				return "nf"
+			}
+			return errClass(err)
+		}
+		return entryOut(e)
+	case "getSince", "getAtTx", "getAtRev":
+		req := &schema.KeyRequest{Key: []byte(c.K)}
+		switch c.Kind {
+		case "getSince":
+			req.SinceTx = c.Tx
+		case "getAtTx":
+			req.AtTx = c.Tx
+		case "getAtRev":
+			req.AtRevision = -int64(c.Tx)
+		}
+		e, err := db.Get(ctx, req)
 		if err != nil {
 			if errors.Is(err, store.ErrKeyNotFound) {
 				return "nf"
@@ -344,7 +409,7 @@ func scenario(sc scen) sched.Scenario {
 		var parts []string
 		for _, o := range ops {
 			parts = append(parts, fmt.Sprintf("c%d:%v->%v", o.ClientId, o.Input, o.Output))
-			if s, ok := o.Output.(string); ok && strings.HasPrefix(s, "err:") && s != "err:precondition" && s != "err:conflict" && s != "err:notfound" {
+			if s, ok := o.Output.(string); ok && strings.HasPrefix(s, "err:") && s != "err:precondition" && s != "err:conflict" && s != "err:notfound" && s != "err:txnotfound" && s != "err:invalidrevision" && s != "err:illegal" {
 				sched.Report("unexpected-error call="+o.Input.(call).Kind+" "+firstWords(s), fmt.Sprintf("%v -> %v", o.Input, o.Output))
 			}
 		}
@@ -383,6 +448,8 @@ func main() {
 		{"notModifiedAfter vs set", []call{{Kind: "set", K: k1, V: "v0"}}, [][]call{{{Kind: "setNotModifiedAfter", K: k1, V: "a", Tx: 1}}, {{Kind: "set", K: k1, V: "b"}}}},
 		{"set2 vs getAll", nil, [][]call{{{Kind: "set2", K: k1, K2: k2, V: "a"}}, {{Kind: "getAll", K: k1, K2: k2}}}},
 		{"delete vs get;ifExists", []call{{Kind: "set", K: k1, V: "v0"}}, [][]call{{{Kind: "delete", K: k1}}, {{Kind: "get", K: k1}, {Kind: "setIfExists", K: k1, V: "c"}}}},
+		{"set vs getAtTx;getSince", []call{{Kind: "set", K: k1, V: "v0"}}, [][]call{{{Kind: "set", K: k1, V: "a"}}, {{Kind: "getAtTx", K: k1, Tx: 2}, {Kind: "getSince", K: k1, Tx: 2}}}},
+		{"set vs getAtRev", []call{{Kind: "set", K: k1, V: "v0"}}, [][]call{{{Kind: "set", K: k1, V: "a"}}, {{Kind: "getAtRev", K: k1, Tx: 1}, {Kind: "get", K: k1}}}},
 		{"execAll vs scan vs history", []call{{Kind: "set", K: k1, V: "v0"}}, [][]call{{{Kind: "execAll", K: k1, K2: k2, V: "a"}}, {{Kind: "scan", K: "k"}}, {{Kind: "history", K: k1}}}},
 	}
 	var scs []sched.Scenario
@@ -392,7 +459,7 @@ func main() {
 		if c.Thorough() {
 			jobs = append(jobs, sched.Job{Scenario: s.name, Bound: 1, Budget: 100 * time.Second})
 		} else {
-			jobs = append(jobs, sched.Job{Scenario: s.name, Bound: 1, Budget: 19 * time.Second})
+			jobs = append(jobs, sched.Job{Scenario: s.name, Bound: 1, Budget: 15 * time.Second})
 		}
 	}
 	if c.Thorough() {
